@@ -28,9 +28,9 @@ def main():
                 "suite_with_change": tail(os.path.join(d, "suite_with_change.txt"), 1),
                 "demo_with_change": [l for l in tail(os.path.join(d, "demo_with_change.txt"), 3) if not l.startswith("rc=")],
                 "demo_without_change": [l for l in tail(os.path.join(d, "demo_without_change.txt"), 4) if not l.startswith("rc=")],
-                "how": "lib/seedproc.sh in the sub-agent's scratch worktree (pinned suite with the change; demonstration with and without the change), then lib/trymut.py against /repo",
+                "how": "lib/seedproc.sh (rounds 1-9) or lib/seedverify.sh (from round 10) in the sub-agent's scratch worktree (pinned suite with the change; demonstration with and without the change), then lib/trymut.py against /repo",
             },
-            "origin": "independent sub-agent given only the property text, the list of changes already seeded for it and a scratch worktree",
+            "origin": ("independent sub-agent given only the property text and a scratch worktree" if rnd == 10 else "independent sub-agent given only the property text, the list of changes already seeded for it and a scratch worktree"),
         }
         if e.get("strengthened"):
             meta["strengthened"] = e["strengthened"]
